@@ -61,6 +61,10 @@ func (h Header) ValidateBasic() error {
 	if err := tmSignedHeader.ValidateBasic(h.Header.GetChainID()); err != nil {
 		return sdkerrors.Wrap(err, "header failed basic validation")
 	}
+	// the app hash becomes the root of the stored consensus state, which must not be empty
+	if len(h.Header.GetAppHash()) == 0 {
+		return sdkerrors.Wrap(clienttypes.ErrInvalidHeader, "app hash cannot be empty")
+	}
 
 	// TrustedHeight is less than Header for updates
 	// and less than or equal to Header for misbehaviour
